@@ -39,7 +39,8 @@ class Eq(Suite):
             if not any(A):
                 A[0] = [[names[0]]]
             B = [[list(b) for b in r] for r in A]
-            kind = rng.choice(["same", "permuted", "reinserted", "duplicated", "moved", "multiplicity", "other", "bucket_order"])
+            kind = rng.choice(["same", "permuted", "reinserted", "duplicated", "moved", "multiplicity", "other", "bucket_order",
+                               "resplit", "resplit"])
             if kind == "permuted":
                 rng.shuffle(B)
             elif kind == "reinserted":
@@ -67,6 +68,21 @@ class Eq(Suite):
                     B.pop(rng.randrange(len(B)))
                 else:
                     B.append(B[rng.randrange(len(B))])
+            elif kind == "resplit":
+                # same number of rankings, same distinct rankings, multiplicities split differently: [a,a,b] vs [a,b,b]
+                distinct = []
+                for r in A:
+                    if r and r not in distinct:
+                        distinct.append(r)
+                if len(distinct) < 2:
+                    extra = gen.random_ranking(rng, names, 1.0, 0.5) or [[names[0]]]
+                    distinct = (distinct or [[[names[0]]]]) + [extra]
+                a, b = distinct[0], distinct[1]
+                k = rng.randint(1, 2)
+                A = [a] * (k + 1) + [b] * 1 + [r for r in distinct[2:]]
+                B = [a] * 1 + [b] * (k + 1) + [r for r in distinct[2:]]
+                B = [[list(x) for x in r] for r in B]
+                rng.shuffle(B)
             elif kind == "other":
                 B = [gen.random_ranking(rng, names, 1.0, 0.5) for _ in range(m)]
                 if not any(B):
@@ -112,5 +128,5 @@ if __name__ == "__main__":
                     "the model's verdict does not depend on those listings",
          rule="pairs (A, B): B is A unchanged / with rankings permuted / with bucket members re-inserted in reverse order (names 0,8,16,24,... "
               "and 64,128,192 collide in small hash tables) / with a duplicated ranking / with one element moved / with one multiplicity "
-              "changed / an unrelated dataset / two buckets swapped; names 'a b' vs 'ab' included. == in both directions, != and == with a deep "
+              "changed / same length and same distinct rankings with the multiplicities split differently / an unrelated dataset / two buckets swapped; names 'a b' vs 'ab' included. == in both directions, != and == with a deep "
               "copy are folded into the two booleans handed to Coq. non-trivial = kind other than 'same'")
